@@ -286,7 +286,9 @@ STACKS = [("client", 1, {}), ("pooled", 1, {"max_pool_size": 1}), ("hash", 1, {}
           ("hash", 1, {"add_at_runtime": 0, "hosts": ["Cache-A"]}), ("hash-pooled", 2, {"add_at_runtime": 1, "hosts": ["Cache-A", "MC.Example.COM"]}),
           ("hash", 2, {"add_at_runtime": 2, "hosts": ["Cache-A", "mc2"]}), ("hash", 1, {"add_at_runtime": 4, "hosts": ["CACHE"]}),
           # the ElastiCache subclass of HashClient (it re-implements the constructor), its nodes learnt from a configuration endpoint
-          ("aws", 1, {}), ("aws-pooled", 2, {}), ("aws", 3, {})]
+          ("aws", 1, {}), ("aws-pooled", 2, {}), ("aws", 3, {}),
+          # TLS connections (tls_context): the wrapped socket's closing handshake (unwrap) fails on a connection that broke
+          ("client", 1, {"tls": True}), ("pooled", 1, {"tls": True, "max_pool_size": 1}), ("hash", 2, {"tls": True})]
 
 
 def sweep_cases(tier, seed):
